@@ -89,6 +89,35 @@ def small_scope(seed, n_schemas):
     return pairs, len(schemas), len(docs)
 
 
+def cut_family(cbor):
+    """every run: an OPTIONAL member with a cut (':' or '^ =>') whose value does not match, followed by a table that would
+    take the pair (RFC 8610 3.5.4: the cut forbids that); literal keys of every kind (seeded C02-5)"""
+    def seq(items):
+        g = items[-1]
+        for it in reversed(items[:-1]):
+            g = ("seq", it, g)
+        return g
+    keys = [(("txt", "k"), "tstr")] + ([(("int", 1), "uint"), (("int", -1), "int"), (("byt", b"\x00"), "bstr")] if cbor else [])
+    vals = [("int", 1), ("txt", "x"), ("bool", True), ("null",)]
+    out = []
+    for key, dom in keys:
+        for vt in ("int", "tstr", "bool"):
+            for occ in ((0, 1), None):
+                for wocc in ((0, None), (1, None)):
+                    e = ("ent", ("lit", key), True, ("ref", vt))
+                    m = ("occ", occ[0], occ[1], e) if occ else e
+                    w = ("occ", wocc[0], wocc[1], ("ent", ("ref", dom), False, ("ref", "any")))
+                    S = ast.Schema([("r0", "type", ("map", seq([m, w])))])
+                    other = {"tstr": ("txt", "zz"), "uint": ("int", 7), "int": ("int", 7), "bstr": ("byt", b"\x07")}[dom]
+                    for v in vals:
+                        out.append((S, ("map", [(key, v)])))
+                        out.append((S, ("map", [(key, v), (other, ("int", 0))])))
+                        out.append((S, ("map", [(other, ("int", 0)), (key, v)])))
+                    out.append((S, ("map", [])))
+                    out.append((S, ("map", [(other, ("int", 0))])))
+    return out
+
+
 def gen_pairs(rng, mode, n_schemas, extra_opts=None):
     cbor = mode == "cbor"
     pairs, classes, stats = [], [], {}
@@ -184,6 +213,9 @@ def run(prop, prop_file, mode, tier, seed):
     n_gen = len(pairs)
     pairs += sp
     classes += ["small-scope"] * len(sp)
+    cf = cut_family(cbor)
+    pairs += cf
+    classes += ["cut-family"] * len(cf)
     phases["generate"] = round(time.time() - t0, 1); t0 = time.time()
     if cbor:
         impl = runner.impl_cbor(drv, pairs, rng)
